@@ -52,6 +52,12 @@ pub fn describe(h: &GenHolidays) -> String {
     format!("PH={{{}}} SH={{{}}}", f(&h.model.ph), f(&h.model.sh))
 }
 
+/// Calendars holding exactly the given dates.
+pub fn holidays_from_sets(ph: BTreeSet<NaiveDate>, sh: BTreeSet<NaiveDate>, order: u32) -> GenHolidays {
+    let holidays = ContextHolidays::new(Arc::new(to_calendar(&ph, order % 3)), Arc::new(to_calendar(&sh, (order + 1) % 3)));
+    GenHolidays { model: MCtx { ph, sh }, holidays }
+}
+
 /// Calendars with dates placed in `base_year - 1 ..= base_year + 8`.
 pub fn gen_holidays(ch: &mut Choices, base_year: i32) -> GenHolidays {
     let mut ph = BTreeSet::new();
